@@ -88,4 +88,4 @@ def run(ctx):
 
 def replay(ctx, path):
     obj = json.load(open(path))
-    return cc.replay_case(ctx, obj, lambda c: c["model"] != c["go"] or c["match"] == "0")
+    return cc.replay_case(ctx, obj, lambda c: c["model"] != c["go"] or c["match"] == "0" or not (c["oracle"].startswith("ok") or c["oracle"] == "-"))
